@@ -846,4 +846,8 @@ WITNESSES = [
      "old": "\tif (rtr_pdu_check_size(pdu) == false) {", "new": "\tif (rtr_pdu_check_size(&header) == false) {"},
     {"id": "C04.w-tcp-recv-hands-zero-to-the-loop", "rule": "C04.R5", "file": "rtrlib/transport/tcp/tcp_transport.c",
      "old": "\tif (rtval == 0)\n\t\treturn TR_CLOSED;\n", "new": ""},
+    {"id": "C04.w-ipv4-sized-buffer-for-any-address", "rule": "C04.R6", "file": PK,
+     "old": "\t\tchar ip[INET6_ADDRSTRLEN];", "new": "\t\tchar ip[INET_ADDRSTRLEN];"},
+    {"id": "C04.w-store-frees-the-array-on-failure", "rule": "C04.R9", "file": PK,
+     "old": "\t\tvoid *tmp = lrtr_realloc(*ary, *size * pdu_size);\n\n\t\tif (!tmp) {", "new": "\t\tvoid *tmp = lrtr_realloc(*ary, *size * pdu_size);\n\n\t\tif (!tmp)\n\t\t\tlrtr_free(*ary);\n\t\tif (!tmp) {"},
 ]
